@@ -14,7 +14,7 @@ From Coq Require Import String.
 From Coq Require Import List Arith ZArith.
 Import ListNotations.
 From YP Require Import Base.Str Term.Term Unify.Unify Lang.Ast Comp.IR Comp.CompileBody Comp.CompileClause Sem.Res Sem.RefSem Sem.IRSem Sem.ExecMono
-  Sem.Machine Sem.RunSem Sem.ClauseSem Sem.ProgramCorrect Sem.Native Sem.NativeThms Sem.NativeFacts Engine.RunBoundedM Engine.NativeMono.
+  Sem.Machine Sem.RunSem Sem.ClauseSem Sem.ProgramCorrect Sem.Native Sem.NativeThms Sem.NativeFacts Sem.NativeSource Engine.RunBoundedM Engine.NativeMono.
 
 (* ---- sem_extensional: the answers of a body / of emitted code / of a whole engine depend on a predicate only through
         its answer function (no functional extensionality axiom) *)
@@ -73,6 +73,42 @@ Theorem C20_subset_interchangeable : forall w w', swaps w w' ->
   forall n name args s, nquery n w name args s = nquery n w' name args s.
 Proof. exact subset_interchangeable. Qed.
 Print Assumptions C20_subset_interchangeable.
+
+(* ---- the same for SOURCE programs and the model compiler.  rules: the program without the replaced predicates; specs: the
+        replaced predicates (name, arity, ground rows, yielded values), registered under name_<arity> (arity inferred or
+        explicit); P = rules ++ their facts is compiled as a whole.  Every query has the same answers against
+        "compiled rules + Python predicates" and against "compiled P", at every depth, next to any dynamic facts dynl *)
+Theorem C20_program_with_python_predicates : forall rules specs dynl ir irf,
+  compile_program rules = Some ir -> compile_program (rules ++ py_clauses specs) = Some irf ->
+  good_program rules -> Forall spec_ok specs -> NoDup (map fst specs) ->
+  (forall c, In c rules -> lookup_fix specs (c_name c) (length (c_args c)) = None) ->
+  forall n name args s,
+    nquery n (mk_world ir (py_table specs) [] dynl) name args s = nquery n (mk_world irf [] [] dynl) name args s.
+Proof. exact program_with_python_predicates. Qed.
+Print Assumptions C20_program_with_python_predicates.
+
+(* ... and with all three registration styles: vspecs are predicates registered with arity=-1 (key name_n); P is any program
+   whose clauses per key are: the facts of a replaced predicate / the clauses of rules *)
+Theorem C20_program_with_python_predicates_all_styles : forall rules P ir irf specs vspecs dynl,
+  compile_program rules = Some ir -> compile_program P = Some irf -> good_program rules -> good_program P ->
+  (forall name k,
+    match lookup_fix specs name k with
+    | Some (rows, vals) => rows <> [] /\ Forall (fun row => ground_row row = true /\ length row = k) rows /\
+                           clauses_for P name k = map (fact_clause name) rows
+    | None =>
+        match lookup_var vspecs name with
+        | Some (kv, rows, vals) =>
+            (forall c a s0, builtin c name a s0 = None) /\ str_eqb name (s_ "call") = false /\
+            clauses_for rules name k = [] /\ rows <> [] /\
+            Forall (fun row => ground_row row = true /\ length row = kv) rows /\
+            clauses_for P name k = (if Nat.eqb k kv then map (fact_clause name) rows else [])
+        | None => clauses_for P name k = clauses_for rules name k
+        end
+    end) ->
+  forall n name args s,
+    nquery n (mk_world ir (py_table specs) (pyv_table vspecs) dynl) name args s = nquery n (mk_world irf [] [] dynl) name args s.
+Proof. exact source_interchangeable_all_styles. Qed.
+Print Assumptions C20_program_with_python_predicates_all_styles.
 
 (* ---- args_in_call_order *)
 Theorem C20_args_in_call_order : forall call w g sargs r s f,
